@@ -1,4 +1,5 @@
 import FluteModel.Lemmas.SessionObjRecv
+import FluteModel.Lemmas.SessionFlush
 import FluteModel.Lemmas.NoCodeSession
 import FluteModel.Props.C09
 /-
@@ -7,54 +8,64 @@ import FluteModel.Props.C09
   object) against the line-by-line model `Flute.ObjRecv` of objectreceiver.rs / blockdecoder.rs / blockwriter.rs, on genuine histories
   of ONE object.  Definitions and proofs: Lemmas/SessionObjRecv.lean.
 
-  PROVED (no hypothesis beyond the setting `Setting.OK` and the step lemmas `Steps`):
-    * `receiver_simulation`       - MAIN THEOREM (composition): over every genuine history of one object the ObjRecv run returns and its
-                                    final state is related to the Session model's (`Rel`: live object simulated `SimCore`, dead object
-                                    gone, writer calls open / complete / error / interrupted = the counters);
+  PROVED, with ONE named hypothesis left - `Link.BlockStep Z`: the block path `push_to_block2 ~ Session.pushCore` - and the side
+  conditions `Setting.OK` (the two configurations tied together; all-accepting writer; codec decodability = `dec` as contract fields
+  `decExt` / `decNil`; `preLt`) and `GenEv` / `FileOK` (genuine events):
+    * `receiver_simulation`       - MAIN THEOREM: over every genuine history of one object the ObjRecv run returns and its final state
+                                    is related to the Session model's (`Rel`: live object simulated `SimCore`, dead object gone,
+                                    writer calls open / complete / error / interrupted = the counters);
     * `session_complete_is_exact` - COROLLARY: the Session model reports `complete`  =>  the ObjRecv writer was told `complete` and
                                     the bytes it accepted are the object (C03 invariants);
     * `counters_are_writer_calls` - the outcome correspondence in both directions;
-    * `objStep_is_stepObj_*`      - `objStep` is literally what `Session.stepObj` does for an existing object;
-  and, of the step lemmas, DISCHARGED (Lemmas/SessionObjRecv.lean; wrappers below):
+    * `objStep_is_stepObj_*`      - `objStep` is literally what `Session.stepObj` does for an existing object.
+  DISCHARGED step lemmas (Lemmas/SessionObjRecv.lean, Lemmas/SessionFlush.lean; wrappers below):
     * dead object / already attached object (inside the composition);
-    * `cached_packet_step`        - OTI unknown: `cache()` incl. the cache-full error  ~  the cache branch of `pushObj`
-                                    (needs `RxCfg.pktCap = some object_max_cache_size`; with `pktCap = none` the models DIVERGE);
+    * `cached_packet_step`        - OTI unknown: `cache()` incl. the cache-full error  ~  the cache branch of `pushObj`;
     * `known_oti_prefix_is_noop`  - OTI known, non-empty object: `push` = `push_to_block` + error handling;
     * `first_inband_packet_step`  - first packet with EXT_FTI: set_oti_from_pkt + init_blocks_partitioning, then the block path;
     * `empty_object_step`         - the empty object: `complete` iff the writer exists (D14 repaired), then the B flag;
-    * `close_flag_step`           - the B flag on top of push_to_block2  ~  `pushSym` on top of `pushCore`.
-  OPEN - the two fields of `Link.Steps`, NAMED HYPOTHESES of the theorems above:
-    * `block2_step`  - push_to_block2 (SBN window, look-ahead limit, allocation limit, BlockDecoder::push, write_blocks, completion)
-                       ~ `Session.pushCore`;
-    * `attach_live`  - attach_fdt (metadata, writer creation, LIFO replay of the cache, write_blocks(0))  ~  `Session.attach` + `finish`.
-  What each needs, and the nine DIVERGENCES between the two models found on the way (side conditions `Setting.OK`, `GenEv`, `FileOK`;
-  none on genuine histories in the Session model's configuration; confirmed by agent e2e): header of Lemmas/SessionObjRecv.lean.
+    * `close_flag_step`           - the B flag on top of push_to_block2  ~  `pushSym` on top of `pushCore`;
+    * `attach_step`               - `attach_fdt` ~ `Session.attach` + `finish`: no FDT/in-band conflict on genuine histories
+                                    (432b305), metadata, block table, writer creation and open, LIFO REPLAY of the packet cache
+                                    (`replay_sim`: iterated block path incl. B flags, stops at the first terminal state), then
+                                    `write_blocks(0)`;
+    * `flush_at_attach`           - `write_blocks(0)` ~ `Session.settle`: the loop of write_blocks from the head of the deque against
+                                    `advance` (`flush_loop`: BlockWriter::write of each completed head block, pop_front, exact byte
+                                    accounting `bytes_left + |first sbn blocks| = |T|`), `complete()` exactly when all blocks are
+                                    written, Content-Length / MD5 pass.
+  OPEN - `Link.BlockStep Z` (= the former `Steps.block2B_step`): push_to_block2 on a live, partitioned, non-empty object whose deque
+  head is not a completed block: SBN window, look-ahead limit, allocation limit, BlockDecoder::init/push against `got`, and the
+  flush from the pushed block.  What it needs: the decoder-holds-ESIs bookkeeping under `BlockDecoder::push`, the counting
+  `distinctSbns` / `allocBytes` = nb_allocated_blocks / total_allocated_blocks_size (`TInv.cnt`), blocks.len() <= 4097, and
+  `flush_loop` once more (from `pid.sbn` instead of 0).
+  Executable evidence for it: see the end of the file.  DIVERGENCES between the two models (side conditions): header of
+  Lemmas/SessionObjRecv.lean.
 -/
 namespace Flute.Props.C02.Link
 open Flute Flute.FecDec Flute.ObjRecv Flute.Link
 
 /-- MAIN THEOREM (composition of the step lemmas) -/
-theorem receiver_simulation (Z : Setting) (hZ : Z.OK) (H : Steps Z) (toi : Nat) (ops : List Op) (evs : List LEv)
+theorem receiver_simulation (Z : Setting) (hZ : Z.OK) (hb : BlockStep Z) (toi : Nat) (ops : List Op) (evs : List LEv)
     (hh : Hist Z ops evs) :
     ∃ st', runL Z.P (St.new toi Z.maxSize) ops = .ok st' ∧ Good Z st' ∧
       Rel Z st' (objRun Z { obj := some Session.rx0 } evs) :=
-  runL_rel Z hZ H ops evs hh _ _ (good_new Z hZ toi) (rel_new Z toi)
+  runL_rel Z hZ (steps_of_block Z hZ hb) ops evs hh _ _ (good_new Z hZ toi) (rel_new Z toi)
 
 /-- COROLLARY: `complete` in the Session model  =>  `complete` on the ObjRecv writer, with exactly the object's bytes -/
-theorem session_complete_is_exact (Z : Setting) (hZ : Z.OK) (H : Steps Z) (toi : Nat) (ops : List Op) (evs : List LEv)
+theorem session_complete_is_exact (Z : Setting) (hZ : Z.OK) (hb : BlockStep Z) (toi : Nat) (ops : List Op) (evs : List LEv)
     (hh : Hist Z ops evs) (hc : 0 < (objRun Z { obj := some Session.rx0 } evs).completes) :
     ∃ st', runL Z.P (St.new toi Z.maxSize) ops = .ok st' ∧ ¬ noComplete st'.out ∧ st'.written = Z.S.T :=
-  complete_sound Z hZ H toi ops evs hh hc
+  complete_sound Z hZ (steps_of_block Z hZ hb) toi ops evs hh hc
 
 /-- the counters of the Session model are the writer calls of ObjRecv -/
-theorem counters_are_writer_calls (Z : Setting) (hZ : Z.OK) (H : Steps Z) (toi : Nat) (ops : List Op) (evs : List LEv)
+theorem counters_are_writer_calls (Z : Setting) (hZ : Z.OK) (hb : BlockStep Z) (toi : Nat) (ops : List Op) (evs : List LEv)
     (hh : Hist Z ops evs) :
     ∃ st', runL Z.P (St.new toi Z.maxSize) ops = .ok st' ∧
       (objRun Z { obj := some Session.rx0 } evs).completes = cnt isComplete st'.out ∧
       (objRun Z { obj := some Session.rx0 } evs).errors = cnt isError st'.out ∧
       (objRun Z { obj := some Session.rx0 } evs).interrupts = cnt isInterrupted st'.out ∧
       (objRun Z { obj := some Session.rx0 } evs).opens = cnt isOpenOk st'.out :=
-  complete_complete Z hZ H toi ops evs hh
+  complete_complete Z hZ (steps_of_block Z hZ hb) toi ops evs hh
 
 theorem objStep_is_stepObj_pkt (Z : Setting) (os : Session.OState) (rx : Session.ORx) (s : Session.Sym)
     (hobj : os.obj = some rx) (hc : os.completed = false) :
@@ -100,6 +111,22 @@ theorem close_flag_step (Z : Setting) (H : Steps Z) (st st1 : St) (b : Bool) (os
     (h : pushToBlock Z.P st p = .ok (st1, b)) :
     Rel Z (if b then st1 else error st1 false) (Session.finish Z.oc os (Session.pushSym Z.dec Z.rc Z.oc rx s)) :=
   block_step Z H st st1 b os rx p s hg hr hrec hobj hsim g hoti hn h
+
+/-- DISCHARGED step: `attach_fdt` with the File entry of the object on a live, not yet attached object -/
+theorem attach_step (Z : Setting) (hZ : Z.OK) (hb : BlockStep Z) (st st' : St) (b : Bool) (os : Session.OState) (rx : Session.ORx)
+    (id : Nat) (f : FileEntry) (hg : Good Z st) (hr : Rel Z st os) (hrec : st.state = .receiving) (hobj : os.obj = some rx)
+    (hsim : SimCore Z st rx) (hatt : rx.attached = false) (fo : FileOK Z f)
+    (h : attachFdt Z.P st id (some f) = .ok (st', b)) :
+    Rel Z st' (Session.finish Z.oc { os with opens := os.opens + 1 } (Session.attach Z.dec Z.rc Z.oc rx)) :=
+  attach_live Z hZ (steps_of_block Z hZ hb) st st' b os rx id f hg hr hrec hobj hsim hatt fo h
+
+/-- DISCHARGED step (no hypothesis): `write_blocks(0)` on the attached object  ~  `Session.settle` -/
+theorem flush_at_attach (Z : Setting) (hZ : Z.OK) (st st1 : St) (ok : Bool) (os : Session.OState) (rx : Session.ORx)
+    (hg : Good Z st) (hr : RelB Z st os) (hrec : st.state = .receiving) (hobj : os.obj = some rx) (hsim : SimB Z st rx)
+    (hatt : rx.attached = true) (hn : Z.S.n ≠ 0) (hc : st.cache = []) (hoff : st.blocksOffset = 0 ∨ Head st)
+    (h : writeBlocks Z.P st 0 = .ok (st1, ok)) :
+    StepOut Z st (if ok then st1 else error st1 false) (Session.finish Z.oc os (Session.settle Z.dec Z.oc rx)) :=
+  flush0_thm Z hZ st st1 ok os rx hg hr hrec hobj hsim hatt hn hc hoff h
 
 /-- non-vacuity of the relation: the initial states are related -/
 theorem initial_states_related (Z : Setting) (toi : Nat) :
